@@ -17,7 +17,19 @@ correspondence: generated components (module files under ck.workdir) whose updat
                 taken from the wrapper; that it covers the SCC is the direct oracle's business); `heutopo` on the blocks,
                 constraint edges, CountBranchesLoops branchiness and the ranks of id(blk); `insert` = insert_sortedlist
                 alone, compiled from the source text of Mamba2020Pass.py, on sorted queues with equal keys as well.
-direct oracle:  independent of the model: every update_ff block exactly once in the flattened schedule_ff; every comb block of
+                Several instances of ONE component class (block names are shared between instances, analysis results are
+                cached per class): (a) hub designs — a hub block feeding 3-5 instances of 1-2 lane classes (one `up_decode`
+                block each, a K-way if/elif decode, K = 0/5/19/20/21/25 = its branchiness) and reading them back through
+                nets: a false loop of 3N+1 >= 10 blocks that compile_scc cuts into meta blocks, blocks of >= 20 branches
+                landing alone; run under Mamba2020 and DefaultPassGroup (parts 'all' and 'scc'); (b) part 'ff': 2-4
+                instances of one child class `construct(s, en_a, en_b)` whose update_ff block writes ra / rb / rc under
+                `if en_a:` / `if en_b:` / `else:` (closure constants; one variant through an @s.func helper, one nested
+                under a signal test), all constant combinations and construction orders, dead-branch instance first in 60%.
+direct oracle:  hub designs, on the real simulation: after sim_eval_combinational the state is a fixed point (re-running any
+                comb block changes nothing) and equals the acyclic reference f_K(...f_K(in)); multi-instance designs, on the
+                real simulation under Default / Mamba2020 / UnrollSim / HeuTopoUnrollSim: every register follows
+                state' = F(state, in) each cycle (Python reference), every live `<<=` target has needs_double_buffer;
+                independent of the model: every update_ff block exactly once in the flattened schedule_ff; every comb block of
                 final_upblks exactly once in the flattened update_schedule (inside an SCC wrapper: at least once, a repeat only
                 for an entry block with >= 2 constraint edges from outside its SCC, which the BFS of compile_scc enqueues once
                 per edge); for every constraint (u, v) between different SCCs (SCCs recomputed here by reachability) u comes
@@ -36,6 +48,9 @@ THEOREMS = ['PV.C01m.' + t for t in [
   'mamba_bounds', 'heu_fuel', 'heu_topo', 'heu_complete', 'heu_pops_min', 'sortBr_stable', 'packSCC_small']]
 # the part that concerns update_ff blocks only (C07)
 THEOREMS_FF = ['PV.C01m.' + t for t in ['sortBr_perm', 'sortBr_sorted', 'sortBr_stable', 'packFF_flatten', 'packFF_bounds']]
+# the part that concerns the packing inside an SCC wrapper and the order of the SCCs (C11)
+THEOREMS_SCC = ['PV.C01m.' + t for t in ['packSCC_flatten', 'packSCC_bounds', 'packSCC_small', 'mamba_fuel', 'mamba_topo', 'mamba_complete',
+                                         'mamba_segmentation']]
 THEOREM_MODULE = {t: MODULE for t in THEOREMS}
 TRUSTED = [
   'Model/Mamba.lean stands for Mamba2020Pass.schedule_ff / compile_scc packing / schedule_intra_cycle (insert_sortedlist, pop(0)/pop(), '
@@ -47,7 +62,9 @@ TRUSTED = [
 RULE = ('scheduler stream: generated components with 0-40 comb blocks (branch counts drawn from pools aimed at every flush site, shapes '
         'independent / chain / layered / random DAG, optional net aliases and loop-only blocks), 0-2 rings of 2-16 blocks, 0-16 update_ff blocks; '
         'a case = (design, pass, schedule part); non-trivial = a flush happens (>= 2 meta blocks) or the order is constrained by >= 1 edge; '
-        'plus random sorted queues (0-8 entries, keys from a 4 x 6 grid so that equal keys occur) for insert_sortedlist')
+        'plus random sorted queues (0-8 entries, keys from a 4 x 6 grid so that equal keys occur) for insert_sortedlist; '
+        'several instances of one class: hub + 3-5 lanes of 1-2 lane classes (decode width 0/5/19/20/21/25), simulated on 6 inputs under 2 pass '
+        'groups; 2-4 instances of a child class with closure-constant guarded <<= branches, 8 cycles under 4 pass groups')
 
 # ---------------------------------------------------------------------------------------------------------------------
 # generated designs
@@ -176,6 +193,149 @@ def gen_design(rng, uid, kind=None):
   return d
 
 _loaded = {}
+# ---------------------------------------------------------------------------------------------------------------------
+# several instances of one component class
+# ---------------------------------------------------------------------------------------------------------------------
+def lane_f(K, x): return ((x + 1) & 0xff) if (K == 0 or x < K) else x
+
+def hub_source(rng, uid):
+  """a hub block feeding N instances of 1-2 lane classes (one update block `up_decode` each: a K-way if/elif decode, K = the
+  block's branchiness) and reading them back through nets: hub + 2N net blocks + N decode blocks form a FALSE loop
+  (in_ -> lane0 -> lane1 -> ... -> out); returns (source, class name, spec)"""
+  N = rng.choice([3, 3, 4, 4, 5])
+  Ks = [rng.choice([0, 5, 19, 20, 21, 25])]
+  if rng.random() < 0.4: Ks.append(rng.choice([0, 5, 20, 25]))
+  if rng.random() < 0.5: Ks[0] = rng.choice([20, 21, 25])          # a block of >= 20 branches is a meta block of its own
+  lanes = [rng.randrange(len(Ks)) for _ in range(N)]
+  if len(Ks) == 2 and rng.random() < 0.5: lanes = sorted(lanes)
+  pre = rng.random() < 0.5
+  top = f'MH{os.getpid()}_{uid}'
+  L = ['from pymtl3 import *', '']
+  for c, K in enumerate(Ks):
+    L += [f'class Lane{os.getpid()}_{uid}_{c}( Component ):', '  def construct( s ):', '    s.in_ = InPort( 8 )', '    s.out = OutPort( 8 )',
+          '    @update', '    def up_decode():']
+    if K == 0: L += ['      s.out @= s.in_ + 1']
+    else:
+      for k in range(K): L += [f"      {'if' if k == 0 else 'elif'} s.in_ == {k}: s.out @= {k + 1}"]
+      L += ['      else: s.out @= s.in_']
+    L += ['']
+  L += [f'class {top}( Component ):', '  def construct( s ):', '    s.in_ = InPort( 8 )', '    s.out = OutPort( 8 )',
+        f'    s.to_lane = [ Wire( 8 ) for _ in range({N}) ]', f'    s.from_lane = [ Wire( 8 ) for _ in range({N}) ]',
+        '    s.lanes = [ ' + ', '.join(f'Lane{os.getpid()}_{uid}_{c}()' for c in lanes) + ' ]',
+        f'    for i in range({N}):', '      s.lanes[i].in_ //= s.to_lane[i]', '      s.lanes[i].out //= s.from_lane[i]']
+  if pre: L += ['    s.pre = Wire( 8 )', '    @update', '    def up_pre():', '      s.pre @= s.in_']
+  L += ['    @update', '    def up_hub():', f"      s.to_lane[0] @= {'s.pre' if pre else 's.in_'}",
+        f'      for i in range(1, {N}):', '        s.to_lane[i] @= s.from_lane[i-1]', f'      s.out @= s.from_lane[{N - 1}]']
+  return '\n'.join(L) + '\n', top, {'N': N, 'K': [Ks[c] for c in lanes]}
+
+def check_hub_sim(ck, src, clsname, spec):
+  """direct oracle on the REAL simulation of a hub design: the state returned by sim_eval_combinational is a fixed point
+  (re-running any comb block changes nothing) and equals the acyclic reference, under Mamba2020 and DefaultPassGroup"""
+  from pymtl3.passes.PassGroups import DefaultPassGroup
+  from pymtl3.passes.mamba.PassGroups import Mamba2020
+  cls = load_source(ck.workdir, src, clsname)
+  N, K = spec['N'], spec['K']
+  for flow, grp in [('Mamba2020', lambda: Mamba2020(print_line_trace=False)), ('DefaultPassGroup', DefaultPassGroup)]:
+    case = {'source': src, 'cls': clsname, 'pass': 'Mamba2020', 'flow': flow, 'part': 'hub-sim', 'hub': spec}
+    try:
+      top = cls(); top.elaborate(); top.apply(grp())
+      read = lambda: [int(x) for x in top.to_lane] + [int(x) for x in top.from_lane] + [int(top.out)]
+      combs = sorted(top._dag.final_upblks - top.get_all_update_ff(), key=lambda b: (b.__name__, id(b)))
+      for v in [3, 19, 0, 24, 200, 17]:
+        top.in_ @= v
+        top.sim_eval_combinational()
+        ref_in = [v]
+        for i in range(N - 1): ref_in.append(lane_f(K[i], ref_in[-1]))
+        ref_out = [lane_f(K[i], ref_in[i]) for i in range(N)]
+        ref = ref_in + ref_out + [ref_out[-1]]
+        got = read()
+        changed = None
+        for b in combs:
+          b()
+          if read() != got: changed = (b.__name__, repr(top.get_update_block_host_component(b)) if b in top.get_all_update_blocks() else 'net', read()); break
+        ck.count({'src': hash(src) & 0xffffffff, 'part': 'hub-sim', 'flow': flow, 'in': v}, nontrivial=True)
+        if changed is not None:
+          ck.violation('scc-unstable-state', {'flow': flow, 'what': 'sim_eval_combinational returned a state that is not a fixed point'},
+                       dict(case, input=v), {'state': got, 'rerun_block': changed[0], 'host': changed[1], 'after': changed[2], 'reference': ref,
+                        'oracle': 're-running any update block of the cyclic group after sim_eval_combinational must change no signal'})
+          break
+        if got != ref:
+          ck.violation('scc-wrong-fixed-point', {'flow': flow, 'what': 'false loop settles on other values than the acyclic design'},
+                       dict(case, input=v), {'state': got, 'reference': ref, 'signals': 'to_lane[*], from_lane[*], out'})
+          break
+    except Exception as e:
+      ck.violation('scc-pass-raises', {'flow': flow, 'exception': type(e).__name__}, case,
+                   {'exception': f'{type(e).__name__}: {e}'[:600], 'oracle': 'a false loop through signals must settle (no exception)'})
+
+def multi_source(rng, uid):
+  """2-4 instances of ONE child class `construct(s, en_a, en_b)`: its update_ff block writes ra under `if en_a:`, rb under
+  `if en_b:`, rc under the `else:` (closure constants), q always; a comb block reads them all. Returns (source, class, spec)."""
+  n = rng.choice([2, 2, 3, 4])
+  combos = [(a, b) for a in (False, True) for b in (False, True)]
+  inst = [rng.choice(combos) for _ in range(n)]
+  if rng.random() < 0.6:                                      # the instance whose branches are dead comes first
+    inst[0] = (False, rng.random() < 0.5); inst[-1] = (True, not inst[0][1])
+  if len(set(inst)) == 1: inst[-1] = (not inst[0][0], not inst[0][1])
+  func = rng.random() < 0.35
+  nested = rng.random() < 0.3
+  ch, top = f'Ch{os.getpid()}_{uid}', f'MM{os.getpid()}_{uid}'
+  L = ['from pymtl3 import *', '', f'class {ch}( Component ):', '  def construct( s, en_a, en_b ):',
+       '    s.in_ = InPort( Bits8 )', '    s.out = OutPort( Bits8 )']
+  for r in ('ra', 'rb', 'rc', 'q'): L.append(f'    s.{r} = Wire( Bits8 )')
+  if func: L += ['    @s.func', '    def bump_a():', '      s.ra <<= s.ra + s.in_']
+  L += ['    @update_ff', '    def up_regs():', '      s.q <<= s.in_', '      if en_a:']
+  if func: L += ['        bump_a()']
+  elif nested: L += ['        if s.in_ != 0:', '          s.ra <<= s.ra + s.in_']
+  else: L += ['        s.ra <<= s.ra + s.in_']
+  L += ['      if en_b:', '        s.rb <<= s.rb + 1', '      else:', '        s.rc <<= s.rc + 2',
+        '    @update', '    def up_out():', '      s.out @= s.ra ^ s.rb ^ s.rc ^ s.q', '',
+        f'class {top}( Component ):', '  def construct( s ):', '    s.in_ = InPort( Bits8 )']
+  for i, (a, b) in enumerate(inst):
+    L += [f'    s.c{i} = {ch}( {a}, {b} )', f'    s.c{i}.in_ //= s.in_', f'    s.o{i} = OutPort( Bits8 )', f'    s.o{i} //= s.c{i}.out']
+  return '\n'.join(L) + '\n', top, {'inst': [[bool(a), bool(b)] for a, b in inst], 'nested': nested and not func}
+
+def check_multi_sim(ck, src, clsname, spec):
+  """direct oracle on the REAL simulation under every pass group: each register whose guarded `<<=` is live follows
+  state' = F(state, in) (independent reference below), holds otherwise; every live `<<=` target is double-buffered"""
+  from pymtl3.passes.PassGroups import DefaultPassGroup
+  from pymtl3.passes.mamba.PassGroups import HeuTopoUnrollSim, Mamba2020, UnrollSim
+  cls = load_source(ck.workdir, src, clsname)
+  inst, nested = spec['inst'], spec['nested']
+  stim = [3, 0, 7, 255, 0, 1, 9, 4]
+  for flow, grp in [('DefaultPassGroup', DefaultPassGroup), ('Mamba2020', lambda: Mamba2020(print_line_trace=False)),
+                    ('UnrollSim', lambda: UnrollSim(print_line_trace=False)), ('HeuTopoUnrollSim', lambda: HeuTopoUnrollSim(print_line_trace=False))]:
+    case = {'source': src, 'cls': clsname, 'pass': 'Mamba2020', 'flow': flow, 'part': 'multi-sim', 'multi': spec}
+    top = cls(); top.elaborate()
+    kids = [getattr(top, f'c{i}') for i in range(len(inst))]
+    nodb = []
+    for i, (a, b) in enumerate(inst):       # before the simulation pass replaces the signal objects by their values
+      for r, live in (('q', True), ('ra', a), ('rb', b), ('rc', not b)):
+        if live and not getattr(kids[i], r)._dsl.needs_double_buffer: nodb.append(f'c{i}.{r}')
+    top.apply(grp())
+    if nodb:
+      ck.violation('ff-target-not-double-buffered', {'what': 'a register assigned with <<= is not in the flip list'}, case,
+                   {'registers': nodb, 'instances(en_a,en_b)': inst, 'oracle': 'every signal a live `<<=` of an update_ff block assigns has needs_double_buffer (is flipped at the edge)'})
+    st = [dict(ra=0, rb=0, rc=0, q=0) for _ in inst]
+    for t, v in enumerate(stim):
+      top.in_ @= v
+      top.sim_eval_combinational()
+      top.sim_tick()
+      for i, (a, b) in enumerate(inst):
+        o = st[i]; nw = dict(o); nw['q'] = v
+        if a and (v != 0 or not nested): nw['ra'] = (o['ra'] + v) & 0xff
+        if b: nw['rb'] = (o['rb'] + 1) & 0xff
+        else: nw['rc'] = (o['rc'] + 2) & 0xff
+        st[i] = nw
+      got = [{r: int(getattr(k, r)) for r in ('ra', 'rb', 'rc', 'q')} for k in kids]
+      outs = [int(getattr(top, f'o{i}')) for i in range(len(inst))]
+      ref_outs = [x['ra'] ^ x['rb'] ^ x['rc'] ^ x['q'] for x in st]
+      ck.count({'src': hash(src) & 0xffffffff, 'part': 'multi-sim', 'flow': flow, 't': t}, nontrivial=True)
+      if got != st or outs != ref_outs:
+        ck.violation('ff-not-F-of-pre-edge-state', {'flow': flow, 'what': 'register does not follow its next-state function'}, dict(case, inputs=stim[:t + 1]),
+                     {'cycle': t, 'impl': got, 'ref': st, 'outs': outs, 'ref_outs': ref_outs, 'instances(en_a,en_b)': inst,
+                      'oracle': "state' = F(state, in) on pre-edge values; a value assigned with <<= is committed at the edge"})
+        break
+
 def load_source(workdir, src, clsname):
   if (workdir, clsname, src) in _loaded: return _loaded[(workdir, clsname, src)]
   modname = f'pvmamba_{os.getpid()}_{clsname}'
@@ -215,8 +375,9 @@ def scc_groups(fn):
   g = fn.__globals__
   calls = [m.group(1) for m in re.finditer(r'^\s*(\w+)\(\)', src, re.M) if m.group(1) in g and callable(g[m.group(1)]) and m.group(1) != fn.__name__]
   if not calls: raise InfraError(f'no calls found in {fn.__name__}:\n{src}')
-  if all(is_meta(g[c]) for c in calls): return [meta_members(g[c]) for c in calls], True
-  if any(is_meta(g[c]) for c in calls): raise InfraError(f'mixed inline / meta calls in {fn.__name__}:\n{src}')
+  # the names are looked up in the wrapper's globals exactly as the generated code does when it runs: members are
+  # function OBJECTS (two calls that resolve to one object are one block called twice)
+  if any(is_meta(g[c]) for c in calls): return [meta_members(g[c]) if is_meta(g[c]) else [g[c]] for c in calls], True
   return [[g[c] for c in calls]], False
 
 def run_mamba(cls):
@@ -294,8 +455,7 @@ def check_mamba(ck, src, clsname, part, lines, meta):
   if part in ('all', 'ff'):
     groups = []
     for fn in top._sched.schedule_ff:
-      if not is_meta(fn): raise InfraError(f'schedule_ff entry {fn} is not a meta block')
-      groups.append([lab(b) for b in meta_members(fn)])
+      groups.append([lab(b) for b in (meta_members(fn) if is_meta(fn) else [fn])])
     flat = [x for g in groups for x in g]
     want = sorted(lab(b) for b in ffs)
     case = dict(case0, part='schedule_ff')
@@ -321,9 +481,8 @@ def check_mamba(ck, src, clsname, part, lines, meta):
   sccs, gnew = rec['sccs'], rec['gnew']
   blk2scc = {b: i for i, s_ in enumerate(sccs) for b in s_}
   sched = top._sched.update_schedule
-  if sched and all(is_meta(fn) for fn in sched): ggroups = [meta_members(fn) for fn in sched]
-  elif any(is_meta(fn) for fn in sched): raise InfraError('mixed meta / plain entries in update_schedule')
-  else: ggroups = [list(sched)]
+  if any(is_meta(fn) for fn in sched): ggroups = [meta_members(fn) if is_meta(fn) else [fn] for fn in sched]
+  else: ggroups = [list(sched)] if sched else []
   flat_blocks, scc_inner, id_groups = [], [], []
   for g in ggroups:
     ids = []
@@ -491,26 +650,42 @@ def check_insert(ck, n):
     if model != impl: ck.disagreement('Model/Mamba insertSorted≈insert_sortedlist', case, model, impl)
 
 def run(ck, part='all'):
-  """part: 'all' (C01), 'ff' (C07: schedule_ff only)"""
+  """part: 'all' (C01), 'ff' (C07: schedule_ff + several instances of one class with closure constants),
+  'scc' (C11: rings and hub designs only)"""
   rng = ck.rng
-  n = (250 if part == 'all' else 100) if ck.tier == 'quick' else (3000 if part == 'all' else 1500)
+  quick = ck.tier == 'quick'
+  n = {'all': 250, 'ff': 100, 'scc': 60}[part] if quick else {'all': 3000, 'ff': 1500, 'scc': 800}[part]
   lines, meta = [], []
   kinds = ['ff', 'dag', 'ring', 'mix', 'dag', 'ring']
-  for k in range(n):
-    kind = 'ff' if part == 'ff' else (kinds[k] if k < len(kinds) else None)
-    d = gen_design(rng, k, kind)
-    src = d.source()
+  def one(src, clsname, tag, heu=True):
     ck.extra_cov.setdefault('mamba_sample_source', src)
-    ck.hist('mamba_design_kind', d.tag)
+    ck.hist('mamba_design_kind', tag)
     try:
-      check_mamba(ck, src, d.cls_name(), part, lines, meta)
-      if part == 'all': check_heutopo(ck, src, d.cls_name(), lines, meta)
+      check_mamba(ck, src, clsname, 'all' if part == 'scc' else part, lines, meta)
+      if part == 'all' and heu: check_heutopo(ck, src, clsname, lines, meta)
     except InfraError: raise
     except Exception as e:
       raise InfraError(f'scheduler stream: {type(e).__name__}: {e}\n{src}')
+  for k in range(n):
+    kind = 'ff' if part == 'ff' else 'ring' if part == 'scc' else (kinds[k] if k < len(kinds) else None)
+    d = gen_design(rng, k, kind)
+    one(d.source(), d.cls_name(), d.tag)
     if len(ck.violations) > 10: break
+  # several instances of one component class
+  if part in ('all', 'scc'):
+    for k in range((20 if part == 'all' else 30) if quick else 300):
+      src, clsname, spec = hub_source(rng, k)
+      one(src, clsname, 'hub')
+      check_hub_sim(ck, src, clsname, spec)
+      if len(ck.violations) > 10: break
+  if part == 'ff':
+    for k in range(25 if quick else 300):
+      src, clsname, spec = multi_source(rng, k)
+      check_multi_sim(ck, src, clsname, spec)          # first: the first construction of the class is the one under test
+      one(src, clsname, 'multi')
+      if len(ck.violations) > 10: break
   compare(ck, lines, meta)
-  if part == 'all': check_insert(ck, 300 if ck.tier == 'quick' else 5000)
+  if part == 'all': check_insert(ck, 300 if quick else 5000)
   ck.extra_cov['mamba_designs'] = n
 
 def replay(ck, data):
@@ -529,6 +704,8 @@ def replay(ck, data):
     print('no generated source in this replay'); return 1
   print(data.get('kind'), data.get('signature')); print(str(data.get('detail'))[:1500])
   lines, meta = [], []
+  if case.get('multi'): check_multi_sim(ck, src, clsname, case['multi'])
+  if case.get('hub'): check_hub_sim(ck, src, clsname, case['hub'])
   check_mamba(ck, src, clsname, 'all', lines, meta)
   check_heutopo(ck, src, clsname, lines, meta)
   replies = ck.drv('mamba').batch(lines)
